@@ -108,6 +108,18 @@ M = [
      "        if accttype not in discovered and args.get(accttype, None):\n            discovered[accttype] = []", "        pass"),
     ("C19", "incbal-ignored", "scripts/ofxget.py",
      "                incbal=args[\"incbal\"],", "                incbal=True,"),
+    # a run that should have requested its accounts dies instead (only with more than six requests)
+    ("C19", "many-accounts-run-dies", "scripts/ofxget.py",
+     "    if not stmtrqs:\n        accttypes = [", "    assert len(stmtrqs) < 7\n    if not stmtrqs:\n        accttypes = ["),
+    # ---- later oracles
+    ("C14", "tax-request-dies-unsent", "Client.py",
+     "        Request US federal income tax form 1099 (TAX1099RQ)\n        \"\"\"\n", "        Request US federal income tax form 1099 (TAX1099RQ)\n        \"\"\"\n        if recid is None and not dryrun:\n            raise ValueError(\"recid\")\n"),
+    ("C18", "password-in-backup-file", "scripts/ofxget.py",
+     "    with open(USERCONFIGPATH, \"w\") as f:\n        USERCFG.write(f)\n", "    with open(USERCONFIGPATH, \"w\") as f:\n        USERCFG.write(f)\n    with open(str(USERCONFIGPATH) + \".args\", \"w\") as f:\n        f.write(repr(dict(args)))\n"),
+    ("C18", "dryrun-leaves-scratch-file", "scripts/ofxget.py",
+     "    if args[\"dryrun\"]:\n        msg = \"Dry run; won't store password\"", "    if args[\"dryrun\"]:\n        config.USERCONFIGDIR.mkdir(parents=True, exist_ok=True)\n        open(str(USERCONFIGPATH) + \".dry\", \"w\").write(str(args.get(\"url\")))\n        msg = \"Dry run; won't store password\""),
+    ("C18", "one-element-list-unreadable", "scripts/ofxget.py",
+     "    return [sub.strip() for sub in string.split(\",\")]", "    first, rest = string.split(\",\", 1)\n    return [first.strip()] + [sub.strip() for sub in rest.split(\",\")]"),
 ]
 
 EXTRA_SRC = {
